@@ -10,7 +10,8 @@ from vlib import cz, clist, cbool
 
 OVERLAY = {
     "core/executors/verif_c11_test.go": os.path.join(vlib.HARNESS, "overlay", "executors", "verif_c11_test.go"),
-    "core/timex/relativetime.go": os.path.join(vlib.HARNESS, "overlay", "timex", "relativetime.go"),
+    # the shared virtual clock plus a hook at the start of Since (= the executor's shallQuit)
+    "core/timex/relativetime.go": os.path.join(vlib.HARNESS, "overlay", "executors", "relativetime_c11.go"),
 }
 RACE_OVERLAY = dict(OVERLAY)
 RACE_OVERLAY["core/executors/verif_c11_free_test.go"] = os.path.join(
@@ -24,7 +25,8 @@ PATCHED = False
 def drain_ops(case):
     nadds = sum(1 for o in case["ops"] if o[0] == "add")
     k = min(12, nadds + 3)
-    return [["relall"]] * k + [["wait", 0]] + [["relall"]] * k
+    unit = [["relall"], ["qgo"]] if case.get("gateq") else [["relall"]]
+    return unit * k + [["wait", 0]] + unit * k
 
 
 # ----------------------------------------------------------------------------------
@@ -38,7 +40,7 @@ def analyse(case, obs):
     """Returns dict: failures (list of dict), stats."""
     n = case["nclients"]
     prev = {"idle": [True] * n, "parked": [], "cont": [], "inflight": 0, "guarded": False,
-            "cmd": False, "tick": False, "benter": False}
+            "cmd": False, "tick": False, "benter": False, "bexit": False, "qpark": False}
     started, returned, pending, completed, waits = [], [], [], [], []
     fails = []
     hist = [prev]
@@ -71,6 +73,8 @@ def analyse(case, obs):
             fails.append({"kind": "unknown-task", "step": i})
         elif not pending and sorted(visible) != sorted(started):
             fails.append({"kind": "lost", "step": i, "missing": sorted(set(started) - set(visible))})
+        elif o["cont"] and not (o["guarded"] or o["bexit"]):
+            fails.append({"kind": "orphaned-in-container", "step": i, "tasks": o["cont"]})
         prev = o
         hist.append(o)
     if case.get("drain", True):
@@ -115,7 +119,8 @@ class C11(Property):
                   "atomic action; commander receive and inflight-- merged); correspondence on generated forced schedules only; "
                   "quiescence detection via runtime.Stack; core/timex/relativetime.go is replaced by a virtual clock.")
     rule = ("forced schedules: kind bulk/chunk/periodical, threshold 1..4 (bulk) or 1..8 with weights 0..4, 2..4 clients, "
-            "6..28 controller actions (add/flush/wait/release/tick/clock, idle-quit patterns), optional panicking tasks, then a "
+            "6..28 controller actions (add/flush/wait/release/tick/clock, idle-quit patterns, in 35% of the cases the flusher is parked before "
+            "shallQuit and released explicitly), optional panicking tasks, then a "
             "drain; non-trivial = at least two callbacks, at least one threshold hand-over and one of {Wait, tick flush, "
             "flusher quit+restart}; distinct = canonical JSON hash of the case")
     trusted_base = [
@@ -157,8 +162,17 @@ class C11(Property):
         cs.append({"kind": "periodical", "maxw": 4, "interval": 1000, "bad": [], "nclients": 3,
                    "ops": [["add", 0, 1, 0], ["add", 1, 2, 4], ["tick"], ["add", 2, 3, 1], ["rel", 0], ["tick"],
                            ["tick"], ["rel", 0], ["clock", 10001], ["tick"], ["tick"], ["add", 0, 4, 5]]})
+        # an Add between the flusher's last (empty) tick Flush and its quit decision: the deferred Flush takes it
+        cs.append({"kind": "bulk", "maxw": 3, "interval": 1000, "bad": [], "nclients": 2, "gateq": True,
+                   "ops": [["add", 0, 1, 1], ["tick"], ["rel", 0], ["clock", 10001], ["tick"], ["add", 1, 2, 1],
+                           ["qgo"], ["rel", 0], ["add", 0, 3, 1]]})
+        # a threshold hand-over in the same window: the flusher must not quit (inflight > 0)
+        cs.append({"kind": "bulk", "maxw": 2, "interval": 1000, "bad": [], "nclients": 2, "gateq": True,
+                   "ops": [["add", 0, 1, 1], ["tick"], ["rel", 0], ["clock", 10001], ["tick"], ["add", 1, 2, 1],
+                           ["add", 1, 3, 1], ["qgo"], ["rel", 0]]})
         for c in cs:
             c["drain"] = True
+            c.setdefault("gateq", False)
         return cs
 
     def gen(self, rng, n, tier):
@@ -174,6 +188,7 @@ class C11(Property):
             nid = 1
             ops = []
             hold = rng.random() < 0.2   # keep callbacks parked for long: hand-overs pile up
+            gateq = rng.random() < 0.35  # park the flusher before shallQuit until "qgo"
             while len(ops) < nops:
                 r = rng.random()
                 c = rng.randrange(ncl)
@@ -198,11 +213,20 @@ class C11(Property):
                 else:
                     # idle-quit pattern
                     ops += [["relall"], ["clock", rng.choice([10001, 20000])], ["tick"], ["tick"]]
+                    if gateq:
+                        # something happens between the flusher's tick Flush and its quit decision
+                        for _ in range(rng.randint(0, 2)):
+                            w = 1 if kind == "bulk" else rng.choice([0, 1, 2, 4])
+                            ops.append(["add", rng.randrange(ncl), nid, w])
+                            nid += 1
+                        ops.append(["qgo"])
+                if gateq and rng.random() < 0.08:
+                    ops.append(["qgo"])
             bad = []
             if rng.random() < 0.2 and nid > 1:
                 bad = sorted(set(rng.randrange(1, nid) for _ in range(rng.randint(1, 2))))
             cases.append({"kind": kind, "maxw": maxw, "interval": 1000, "bad": bad, "nclients": ncl,
-                          "ops": ops, "drain": True})
+                          "ops": ops, "drain": True, "gateq": gateq})
         return cases
 
     # ---- execution ---------------------------------------------------------------
@@ -232,21 +256,24 @@ class C11(Property):
             return "ARel %s" % cz(a[1])
         if k == "tick":
             return "ATick"
+        if k == "qgo":
+            return "AQuitGo"
         return "AClock %s" % cz(a[1])
 
     def _obs(self, o):
-        return "mkObs %s %s %s %s %s %s %s %s" % (
+        return "mkObs %s %s %s %s %s %s %s %s %s %s" % (
             clist([cbool(b) for b in o["idle"]]),
             clist([clist([cz(t) for t in h]) for h in o["parked"]]),
             clist([cz(t) for t in o["cont"]]), cz(o["inflight"]), cbool(o["guarded"]), cbool(o["cmd"]),
-            cbool(o["tick"]), cbool(o["benter"]))
+            cbool(o["tick"]), cbool(o["benter"]), cbool(o["bexit"]), cbool(o["qpark"]))
 
     def coq_case(self, case, obs):
         steps = clist(["(%s, %s)" % (self._act(s["act"]), self._obs(s["obs"])) for s in obs["steps"]])
         # an executor error (no quiescence) is a failing history: the drain flag makes final_ok fail
-        return "mkCase %s %s %s %s %s %d%%nat %s" % (
+        return "mkCase %s %s %s %s %s %s %d%%nat %s" % (
             cz(case["maxw"]), cz(case["interval"]), clist([cz(b) for b in case["bad"]]), cbool(PATCHED),
-            cbool(bool(case.get("drain", True)) or bool(obs.get("err"))), case["nclients"], steps)
+            cbool(bool(case.get("drain", True)) or bool(obs.get("err"))), cbool(bool(case.get("gateq"))),
+            case["nclients"], steps)
 
     # ---- classification ----------------------------------------------------------
     def known(self, case, obs):
